@@ -27,7 +27,7 @@ async fn run_behaviour<const N: usize>(cfg: HCfg, beh: BehaviourJ, dir: std::pat
     if let Some(r) = &d.rec {
         // one execution = one `reset` event: a = dirty-byte limit, ok = strict (quiesced) mode
         let limit = d.cfg.dirty_limit.unwrap_or(1 << 30) as i64;
-        r.driver_event("reset", "", -1, d.cfg.wait, limit);
+        r.driver_event("reset", if d.cfg.deferred_fires { "fires" } else { "" }, -1, d.cfg.wait, limit);
     }
     d.open(false).await?;
     let mut out = Vec::new();
